@@ -129,6 +129,229 @@ theorem posixJoin_injective (a : List Char) {b c : List Char} (hh : b.head? = c.
     · have := List.append_cancel_left h
       simpa using this
 
+/-! ### the directory of a shard name -/
+
+theorem rfindSucc_eq_zero (c : Char) (l : List Char) : rfindSucc c l = 0 ↔ c ∉ l := by
+  induction l with
+  | nil => simp [rfindSucc]
+  | cons x xs ih =>
+    simp only [rfindSucc, List.mem_cons, not_or]
+    by_cases hr : rfindSucc c xs > 0
+    · simp only [hr, if_true]
+      constructor
+      · intro h; omega
+      · intro h; exact absurd (ih.mpr h.2) (by omega)
+    · have h0 : rfindSucc c xs = 0 := by omega
+      simp only [hr, if_false]
+      by_cases hx : x = c
+      · simp [hx]
+      · simp only [hx, if_false, true_iff]
+        exact ⟨fun h => hx h.symm, ih.mp h0⟩
+
+theorem not_mem_drop_rfindSucc (c : Char) (l : List Char) : c ∉ l.drop (rfindSucc c l) := by
+  induction l with
+  | nil => simp [rfindSucc]
+  | cons x xs ih =>
+    simp only [rfindSucc]
+    by_cases hr : rfindSucc c xs > 0
+    · simpa [hr] using ih
+    · have h0 : rfindSucc c xs = 0 := by omega
+      have hx' := (rfindSucc_eq_zero c xs).mp h0
+      by_cases hx : x = c
+      · simpa [hr, hx] using hx'
+      · simp only [hr, hx, if_false, List.drop_zero, List.mem_cons, not_or]
+        exact ⟨fun h => hx h.symm, hx'⟩
+
+theorem rfindSucc_append_cons (c : Char) (a b : List Char) (hb : c ∉ b) :
+    rfindSucc c (a ++ c :: b) = a.length + 1 := by
+  induction a with
+  | nil => simp [rfindSucc, (rfindSucc_eq_zero c b).mpr hb]
+  | cons y a ih => simp [rfindSucc, ih]
+
+theorem digitsAux_mem (fuel n : Nat) (acc : List Char) :
+    ∀ c ∈ digitsAux fuel n acc, c ∈ acc ∨ ∃ d, d < 10 ∧ c = Char.ofNat (48 + d) := by
+  induction fuel generalizing n acc with
+  | zero => intro c hc; exact Or.inl hc
+  | succ fuel ih =>
+    intro c hc
+    simp only [digitsAux] at hc
+    split at hc
+    · rcases List.mem_cons.mp hc with h | h
+      · exact Or.inr ⟨n % 10, Nat.mod_lt _ (by decide), h⟩
+      · exact Or.inl h
+    · rcases ih _ _ c hc with h | h
+      · rcases List.mem_cons.mp h with h | h
+        · exact Or.inr ⟨n % 10, Nat.mod_lt _ (by decide), h⟩
+        · exact Or.inl h
+      · exact Or.inr h
+
+theorem digit_ne_slash : ∀ d, d < 10 → Char.ofNat (48 + d) ≠ '/' := by decide
+
+theorem slash_not_mem_pad5 (n : Nat) : '/' ∉ pad5 n := by
+  intro h
+  simp only [pad5, List.mem_append, List.mem_replicate] at h
+  rcases h with ⟨_, h⟩ | h
+  · exact absurd h (by decide)
+  · rcases digitsAux_mem _ _ _ _ h with h | ⟨d, hd, h⟩
+    · simp at h
+    · exact digit_ne_slash d hd h.symm
+
+theorem slash_not_mem_shardBasename (filename : List Char) (idx total : Nat) (sc : Option Nat)
+    (h : '/' ∉ filename) : '/' ∉ shardBasename filename idx total sc := by
+  have hsplit := peelSuffixes_append (filename.length + 1) sc filename []
+  simp only [List.reverse_nil, List.flatten_nil, List.append_nil] at hsplit
+  unfold shardBasename
+  simp only []
+  generalize (peelSuffixes (filename.length + 1) sc filename []).1 = stem at *
+  generalize (peelSuffixes (filename.length + 1) sc filename []).2.reverse.flatten = ext at *
+  subst hsplit
+  simp only [List.mem_append, not_or] at h
+  simp only [List.mem_append, List.mem_cons, not_or]
+  exact ⟨⟨⟨⟨h.1, by decide, slash_not_mem_pad5 idx⟩, by decide⟩, slash_not_mem_pad5 total⟩, h.2⟩
+
+theorem dropWhile_nil_all {α : Type} (p : α → Bool) (l : List α) (h : l.dropWhile p = []) :
+    ∀ x ∈ l, p x = true := by
+  induction l with
+  | nil => intro x hx; simp at hx
+  | cons y ys ih =>
+    intro x hx
+    by_cases hy : p y = true
+    · rw [List.dropWhile_cons_of_pos hy] at h
+      rcases List.mem_cons.mp hx with rfl | hx
+      · exact hy
+      · exact ih h x hx
+    · rw [List.dropWhile_cons_of_neg hy] at h
+      simp at h
+
+theorem rstripSlash_props (h : List Char) (hne : h ≠ List.replicate h.length '/') :
+    rstripSlash h ≠ [] ∧ (rstripSlash h).getLast? ≠ some '/' := by
+  unfold rstripSlash
+  constructor
+  · intro hnil
+    have : h.reverse.dropWhile (· = '/') = [] := by simpa using hnil
+    have hall := dropWhile_nil_all _ _ this
+    apply hne
+    rw [List.eq_replicate_iff]
+    exact ⟨rfl, fun b hb => by simpa using hall b (by simpa using hb)⟩
+  · rw [List.getLast?_reverse]
+    intro hh
+    have hne' : h.reverse.dropWhile (· = '/') ≠ [] := by
+      intro e; rw [e] at hh; simp at hh
+    have := List.head_dropWhile_not (· = '/') hne'
+    rw [List.head?_eq_head hne'] at hh
+    simp only [Option.some.injEq] at hh
+    rw [hh] at this
+    simp at this
+
+theorem rstripSlash_snoc (d : List Char) (hd : d.getLast? ≠ some '/') :
+    rstripSlash (d ++ ['/']) = d := by
+  unfold rstripSlash
+  simp only [List.reverse_append, List.reverse_cons, List.reverse_nil, List.nil_append,
+    List.singleton_append]
+  rw [List.dropWhile_cons_of_pos (by simp)]
+  cases hrev : d.reverse with
+  | nil => simp [List.reverse_eq_nil_iff.mp hrev]
+  | cons x xs =>
+    have hx : x ≠ '/' := by
+      intro e
+      apply hd
+      rw [← List.head?_reverse, hrev, e]; rfl
+    rw [List.dropWhile_cons_of_neg (by simpa using hx)]
+    rw [← hrev, List.reverse_reverse]
+
+/-- `posixpath.split` of what `posixpath.join` made from a split directory and a slash-free
+    file name gives the two parts back -/
+theorem posixSplit_join (p f : List Char) (hf : '/' ∉ f) (hfne : f ≠ []) (hdir : (posixSplit p).1 ≠ []) :
+    posixSplit (posixJoin (posixSplit p).1 f) = ((posixSplit p).1, f) := by
+  have hhead : f.head? ≠ some '/' := by
+    intro h
+    cases f with
+    | nil => simp at h
+    | cons x xs => simp at h; exact hf (by simp [h])
+  -- shape of the directory part
+  have hshape : (posixSplit p).1 = List.replicate (posixSplit p).1.length '/' ∨
+      (posixSplit p).1.getLast? ≠ some '/' := by
+    unfold posixSplit
+    simp only []
+    split
+    · rename_i hc
+      exact Or.inr (rstripSlash_props _ hc.2).2
+    · rename_i hc
+      by_cases h0 : List.take (rfindSucc '/' p) p = []
+      · simp [h0] at hdir
+        unfold posixSplit at hdir
+        simp [h0] at hdir
+      · left
+        have : List.take (rfindSucc '/' p) p =
+            List.replicate (List.take (rfindSucc '/' p) p).length '/' := by
+          by_cases h1 : List.take (rfindSucc '/' p) p =
+              List.replicate (List.take (rfindSucc '/' p) p).length '/'
+          · exact h1
+          · exact absurd ⟨h0, h1⟩ hc
+        exact this
+  generalize (posixSplit p).1 = d at *
+  rcases hshape with hrep | hlast
+  · -- d is all slashes: join = d ++ f
+    obtain ⟨k, hk⟩ : ∃ k, d = List.replicate k '/' ++ ['/'] := by
+      refine ⟨d.length - 1, ?_⟩
+      have hpos : 0 < d.length := List.length_pos_iff.mpr hdir
+      rw [hrep]
+      rw [← List.replicate_succ']
+      congr 1
+      simp; omega
+    have hj : posixJoin d f = List.replicate k '/' ++ '/' :: f := by
+      unfold posixJoin
+      simp only [hhead, if_false]
+      have : d.getLast? = some '/' := by rw [hk]; simp
+      simp [this, hk]
+    rw [hj]
+    unfold posixSplit
+    simp only [rfindSucc_append_cons '/' _ f hf, List.length_replicate]
+    have ht : List.take (k + 1) (List.replicate k '/' ++ '/' :: f) = d := by
+      rw [hk]
+      rw [show List.replicate k '/' ++ '/' :: f = (List.replicate k '/' ++ ['/']) ++ f by simp]
+      rw [List.take_left' (by simp)]
+    have hdrop : List.drop (k + 1) (List.replicate k '/' ++ '/' :: f) = f := by
+      rw [show List.replicate k '/' ++ '/' :: f = (List.replicate k '/' ++ ['/']) ++ f by simp]
+      rw [List.drop_left' (by simp)]
+    rw [ht, hdrop]
+    have : ¬ (d ≠ [] ∧ d ≠ List.replicate d.length '/') := fun h => h.2 hrep
+    simp [this]
+  · -- d does not end with a slash: join = d ++ "/" ++ f
+    have hj : posixJoin d f = d ++ '/' :: f := by
+      unfold posixJoin
+      simp only [hhead, if_false]
+      have : ¬ (d = [] ∨ d.getLast? = some '/') := by
+        rintro (h | h)
+        · exact hdir h
+        · exact hlast h
+      simp [this]
+    rw [hj]
+    unfold posixSplit
+    simp only [rfindSucc_append_cons '/' d f hf]
+    have ht : List.take (d.length + 1) (d ++ '/' :: f) = d ++ ['/'] := by
+      rw [show d ++ '/' :: f = (d ++ ['/']) ++ f by simp]
+      rw [List.take_left' (by simp)]
+    have hdrop : List.drop (d.length + 1) (d ++ '/' :: f) = f := by
+      rw [show d ++ '/' :: f = (d ++ ['/']) ++ f by simp]
+      rw [List.drop_left' (by simp)]
+    rw [ht, hdrop]
+    have hnrep : d ++ ['/'] ≠ List.replicate (d ++ ['/']).length '/' := by
+      intro h
+      have hall := (List.eq_replicate_iff.mp h).2
+      apply hlast
+      cases hrev : d.reverse with
+      | nil => exact absurd (List.reverse_eq_nil_iff.mp hrev) hdir
+      | cons x xs =>
+        have hx : x ∈ d := by
+          have : x ∈ d.reverse := by rw [hrev]; simp
+          simpa using this
+        have := hall x (by simp [hx])
+        rw [← List.head?_reverse, hrev, this]; rfl
+    have : (d ++ ['/'] ≠ [] ∧ d ++ ['/'] ≠ List.replicate (d ++ ['/']).length '/') :=
+      ⟨by simp, hnrep⟩
+    rw [if_pos this, rstripSlash_snoc d hlast]
+
 /-! ### zip-assignment -/
 
 theorem assignZip_length (st : List NewConst) (is : List Nat) (ns : List NewConst) :
